@@ -26,6 +26,27 @@ theorem C19_gcc_filter_spec (fname : Str) (segs : List Segment)
       (segs.filter (fun s => gccMarkerKeep fname s.marker = some true)).flatMap Segment.lines := by
   rw [gccFilter_eq_seg]; exact segFilter_spec _ segs hm hb true
 
+/-- the whole `_gcc_filter`: the main file is recognised by its name with every backslash doubled, as gcc writes
+    it; the escaping identifies no two different names, so no other file's marker can equal the main file's -/
+theorem C19_gcc_filter_top_spec (fname : Str) (segs : List Segment)
+    (hm : ∀ s ∈ segs, (gccMarkerKeep (escBackslash fname) s.marker).isSome)
+    (hb : ∀ s ∈ segs, ∀ l ∈ s.body, gccMarkerKeep (escBackslash fname) l = none) :
+    gccFilterTop fname (segs.flatMap Segment.lines) =
+      (segs.filter (fun s => gccMarkerKeep (escBackslash fname) s.marker = some true)).flatMap Segment.lines :=
+  C19_gcc_filter_spec (escBackslash fname) segs hm hb
+
+theorem C19_gcc_escape_injective (a b : Str) (h : escBackslash a = escBackslash b) : a = b :=
+  escBackslash_injective a b h
+
+/-- a marker naming the file `other` (escaped as gcc does) is taken for the main file's only if `other` IS the main file -/
+theorem C19_gcc_marker_exact_escaped (fname other pre flags : Str)
+    (hp : isPrefix [35, 32] pre = true)
+    (hq : ∀ c ∈ escBackslash other, c ≠ 34) (hn : ∀ c ∈ pre, c ≠ 34) (hf : ∀ c ∈ flags, c ≠ 34)
+    (hk : gccMarkerKeep (escBackslash fname) (pre ++ [34] ++ escBackslash other ++ [34] ++ flags) = some true) : other = fname := by
+  rw [gccMarkerKeep_exact (escBackslash fname) (escBackslash other) pre flags hp hq hn hf] at hk
+  have : (escBackslash other == escBackslash fname) = true := by simpa using hk
+  exact escBackslash_injective _ _ (by simpa using this)
+
 theorem C19_pcpp_filter_spec (fname : Str) (segs : List Segment)
     (hm : ∀ s ∈ segs, (pcppMarkerKeep fname s.marker).isSome)
     (hb : ∀ s ∈ segs, ∀ l ∈ s.body, pcppMarkerKeep fname l = none) :
